@@ -138,4 +138,136 @@ PROPS = {
         "level_note": "Trusted: the hooks read bpaf's own ItemState ledger at the point "
                       "run_subparser returns Ok.",
     },
+    "C06": {
+        "cases": {"quick": 960, "thorough": 48000},
+        "rule": "Per case one random definition with typed (u32/i64/String/OsString) arguments "
+                "and positionals under optional/many/some/fallback/fallback_with/count/last, guard "
+                "and parse steps, nested in alternatives, adjacent groups and commands. Accepted "
+                "derivations (alternately mostly-absent and mostly-present) must yield the denoted "
+                "value; then every typed occurrence is replaced, one at a time, by every kind of "
+                "invalid text (non-numeric, empty, `1x`, `-`, overflow, invalid UTF-8, "
+                "guard-tripping, parse-tripping) and the run must fail on stderr, with the "
+                "conversion/guard/parse message in the text unless the item is inside a choice. "
+                + DISTINCT,
+        "assumptions": COMMON_ASSUMPTIONS + [
+            "Expected conversion messages are obtained by calling the same FromStr impls in the "
+            "harness; items under catch() are skipped (documented opposite behaviour).",
+            "Environment variables declared by generated definitions are unset.",
+        ],
+        "must_observe": ["class:sentence-mostly-absent", "class:invalid:conversion:plain",
+                         "class:invalid:guard:plain", "class:invalid:parse:plain",
+                         "message-present"],
+        "needs_hooks": True,
+        "technique": "runtime monitoring: derivation-directed corruption oracle (class and "
+                     "message text) over generated wrapper stacks",
+        "level_text": "Held on the executions observed: no invalid value was masked by a default "
+                      "and every message outside alternatives carried the expected text.",
+        "level_note": "Trusted: the derivation generator and the fixed guard/parse predicates.",
+    },
+    "C07": {
+        "cases": {"quick": 1600, "thorough": 64000},
+        "rule": "Per case one definition with a choice of 2-4 alternatives with disjoint names "
+                "(required flags, arguments, groups, soft alternatives that succeed on nothing, "
+                "commands; bare, optional, defaulted, many, some) among other fields. Derivations "
+                "using one alternative per round must yield exactly that alternative's value "
+                "(repeated choices: values in command-line order); lines mixing items of two "
+                "alternatives of a non-repeated choice must fail on stderr. " + DISTINCT,
+        "assumptions": COMMON_ASSUMPTIONS + [
+            "Branches of repeated choices contain only required single-occurrence items (an "
+            "optional member would legitimately take occurrences meant for a later round).",
+        ],
+        "must_observe": ["class:single:Bare", "class:single:Many", "class:mixed:Bare",
+                         "class:mixed:Optional", "class:single:Bare+soft"],
+        "needs_hooks": True,
+        "technique": "runtime monitoring: derivation-directed oracle (winner and order known by "
+                     "construction) + mixing mutator with must-fail expectation",
+        "level_text": "Held on the executions observed for the generated choices and orders.",
+        "level_note": "Trusted: the derivation generator's reading of the documented winner rule "
+                      "(leftmost consumed item, ties to the first listed).",
+    },
+    "C08": {
+        "cases": {"quick": 960, "thorough": 48000},
+        "rule": "Per case one command tree of depth <= 3 from the conventional fragment (names "
+                "distinct across levels, aliases, optional commands). Sentences judged by "
+                "derivation and recogniser; a deeper level's option moved left of its command "
+                "name must fail; unknown / foreign / extra command names are judged by the "
+                "recogniser; `path.. --help` must print the help carrying the unique header "
+                "marker of exactly that level. " + DISTINCT,
+        "assumptions": COMMON_ASSUMPTIONS + [
+            "An enclosing level's option right of a command name is outside the quantifier and "
+            "counted as inconclusive.",
+        ],
+        "must_observe": ["judged:sentence", "class:deeper-item-left-of-command-name",
+                         "class:help-after-command-path", "entered-depth:2"],
+        "needs_hooks": True,
+        "technique": "runtime monitoring: reference-model monitor per command level + "
+                     "derivation-directed oracle + misplacement mutators + help-level marker check",
+        "level_text": "Held on the executions observed for the generated trees and placements.",
+        "level_note": "Trusted: reference recogniser and derivation generator (cross-checked).",
+    },
+    "C09": {
+        "cases": {"quick": 1600, "thorough": 64000},
+        "rule": "Per case one definition with 0-3 positionals of every strictness/arity, named "
+                "items and sometimes an optional subcommand. Derivations with `--` at every legal "
+                "split; words right of it are replaced by dash-looking data (`--`, `--help`, "
+                "declared names, command names) and must arrive verbatim; `--name --` must fail; "
+                "moving the separator so that a strict word is on its left or a non-strict one on "
+                "its right must fail. " + DISTINCT,
+        "assumptions": COMMON_ASSUMPTIONS,
+        "must_observe": ["class:sentence-hostile-words-after-separator",
+                         "class:argument-name-then-separator",
+                         "class:strict-word-left-of-separator",
+                         "class:non-strict-word-right-of-separator"],
+        "needs_hooks": True,
+        "technique": "runtime monitoring: derivation-directed oracle with hostile positional data "
+                     "and separator-moving mutators",
+        "level_text": "Held on the executions observed.",
+        "level_note": "Trusted: derivation generator (declaration-order assignment of words).",
+    },
+    "C10": {
+        "cases": {"quick": 960, "thorough": 48000},
+        "rule": "Per case one random any-free definition (commands to depth 3, adjacent groups, "
+                "custom help/version names, version configured or not) with a unique header per "
+                "level. Base lines: valid derivations and invalid ones (unit dropped, doubled, "
+                "foreign flag, corrupted number). The level's help or version item is inserted as "
+                "its own item at every boundary left of `--` (including between an argument name "
+                "and its value and inside adjacent blocks); outcome must be stdout carrying the "
+                "header (or version) of the innermost entered level (for invalid base lines: of a "
+                "level on the entered path). " + DISTINCT,
+        "assumptions": COMMON_ASSUMPTIONS + [
+            "No definition declares the same short letter as flag and argument, so the "
+            "ambiguous-cluster exemption never applies.",
+        ],
+        "must_observe": ["won", "class:help:valid", "class:help:dropped-unit",
+                         "class:help:valid:between-name-and-value", "depth:1"],
+        "needs_hooks": True,
+        "technique": "runtime monitoring: insertion monitor over valid/invalid/incomplete lines "
+                     "with per-level marker identification",
+        "level_text": "Held on the executions observed, except for the listed known findings.",
+        "level_note": "Trusted: derivation generator and mutators (they decide which levels count "
+                      "as entered).",
+    },
+    "C19": {
+        "cases": {"quick": 1600, "thorough": 64000},
+        "rule": "Per case one definition with 1-2 adjacent groups (flag + 1-3 positionals, flag or "
+                "argument + named arguments with optional members; bare, optional, many) among "
+                "named items and trailing positionals. Derivations with 0-3 contiguous blocks must "
+                "yield one value per block in order; broken lines (foreign or declared item "
+                "between members, required member moved away, cut short) are run and any value "
+                "they yield is checked token by token: every block value must come from one "
+                "contiguous run of items; a block interrupted by an undeclared item must fail. "
+                + DISTINCT,
+        "assumptions": COMMON_ASSUMPTIONS + [
+            "Adjacent subcommand chains are exercised by C04 only.",
+        ],
+        "must_observe": ["class:contiguous-blocks:1", "class:contiguous-blocks:2",
+                         "class:broken:interrupted-by-foreign-item",
+                         "class:broken:required-member-moved-away"],
+        "needs_hooks": True,
+        "technique": "runtime monitoring: derivation-directed oracle + contiguity checker over "
+                     "unique tokens of every returned block value",
+        "level_text": "Held on the executions observed.",
+        "level_note": "Trusted: derivation generator; the contiguity checker maps returned tokens "
+                      "back to argv positions (tokens are unique per line).",
+    },
 }
